@@ -78,6 +78,12 @@ func runChild(c jobs.VerifC11Case, raw []byte, dir string) jobs.VerifC11Obs {
 	case strings.Contains(e, "verif: injected panic"):
 		o.Detail = "panic: injected panic in the transform stage"
 	default:
+		for _, mark := range []string{"panic: ", "fatal error: "} {
+			if k := strings.Index(e, mark); k >= 0 {
+				e = e[k:]
+				break
+			}
+		}
 		if len(e) > 200 {
 			e = e[:200]
 		}
@@ -107,21 +113,27 @@ func main() {
 		cases = append(cases, c)
 	}
 	obs := make([]jobs.VerifC11Obs, len(cases))
-	sem := make(chan struct{}, 6)
-	var wg sync.WaitGroup
-	for i := range cases {
-		if cases[i].Kind != "cfg" {
-			continue
+	// observations are printed in case order as soon as every earlier case has answered (the harness watchdog wants to
+	// see progress): configuration cases run in children, 6 at a time; raffle / barrier cases one after the other
+	var mu sync.Mutex
+	done := make([]bool, len(cases))
+	next := 0
+	out := bufio.NewWriter(os.Stdout)
+	finish := func(i int) {
+		mu.Lock()
+		defer mu.Unlock()
+		done[i] = true
+		for next < len(cases) && done[next] {
+			b, _ := json.Marshal(obs[next])
+			out.WriteString("\n@@OBS ")
+			out.Write(b)
+			out.WriteString("\n")
+			next++
 		}
-		wg.Add(1)
-		go func(i int) {
-			defer wg.Done()
-			sem <- struct{}{}
-			defer func() { <-sem }()
-			obs[i] = runChild(cases[i], raws[i], fmt.Sprintf("%s/c11-%d", dir, i))
-		}(i)
+		out.Flush()
 	}
-	wg.Wait()
+	// raffle / barrier cases first and alone (their spinning requesters want the processors for themselves), then the
+	// configuration cases in children, 8 at a time
 	var env *jobs.VerifC11Env
 	for i := range cases {
 		if cases[i].Kind == "raffle" || cases[i].Kind == "barrier" {
@@ -133,17 +145,28 @@ func main() {
 			} else {
 				obs[i] = env.RunBarrier(cases[i])
 			}
+			finish(i)
+		} else if cases[i].Kind != "cfg" {
+			finish(i)
 		}
 	}
+	sem := make(chan struct{}, 8)
+	var wg sync.WaitGroup
+	for i := range cases {
+		if cases[i].Kind != "cfg" {
+			continue
+		}
+		wg.Add(1)
+		go func(i int) {
+			defer wg.Done()
+			sem <- struct{}{}
+			defer func() { <-sem }()
+			obs[i] = runChild(cases[i], raws[i], fmt.Sprintf("%s/c11-%d", dir, i))
+			finish(i)
+		}(i)
+	}
+	wg.Wait()
 	if env != nil {
 		env.Close()
 	}
-	out := bufio.NewWriter(os.Stdout)
-	for i := range cases {
-		b, _ := json.Marshal(obs[i])
-		out.WriteString("\n@@OBS ")
-		out.Write(b)
-		out.WriteString("\n")
-	}
-	out.Flush()
 }
